@@ -343,3 +343,29 @@ def make_ap(src, fields, level_classes, layouts=None, ndims=3, time=0.5):
         levels.append({"boxes": boxes, "file": list(file), "disk": disk})
     return {"src": src, "ndims": ndims, "fields": list(fields), "time": time, "dom": dom,
             "levels": levels}
+
+
+# ---------------------------------------------------------------- concrete field names
+
+# Abstract field names of the model instances ("a", "b", ... and the unknown name "zz") are concretised through one of these
+# pools: plain letters; names of which one is a PREFIX of another, with parentheses and dots; names with a blank, a digit suffix,
+# a hyphen.  The unknown name becomes a proper prefix of a known one (a lookup by prefix or substring would accept it).
+NAME_POOLS = [
+    (["a", "b", "c", "d", "e", "f"], "zz"),
+    (["temp", "temperature", "Y(H2)", "Y(H2O)", "rho.E", "x_velocity"], "Y(H2"),
+    (["mag vort", "mag", "density", "density2", "I_R(CH4)", "T-1"], "densit"),
+]
+
+
+def names_map(seed, abstract, blanks=True):
+    """{abstract name -> concrete name} for the abstract names given (order of first appearance) plus 'zz'."""
+    pools = NAME_POOLS if blanks else NAME_POOLS[:2]
+    pool, unknown = pools[seed % len(pools)]
+    out, k = {}, 0
+    for n in abstract:
+        if n == "zz" or n in out:
+            continue
+        out[n] = pool[k]
+        k += 1
+    out["zz"] = unknown
+    return out
